@@ -360,7 +360,8 @@ func run(t *vlib.T) {
 	objs := objects()
 	alpha := alphabet(t.Thorough())
 	alphaSmall := alphabet(false)
-	limits := []int{6}
+	alphaCore := alphaSmall[:15] // without the value-receiver-less lookups appended last (third position of quick histories)
+	limits := []int{5}
 	depth, dev := 3, 1
 	if t.Thorough() {
 		limits = []int{6, 16}
@@ -420,6 +421,9 @@ func run(t *vlib.T) {
 				al := alpha
 				if t.Thorough() && len(seq) >= smallFrom {
 					al = alphaSmall
+				}
+				if !t.Thorough() && len(seq) >= 2 {
+					al = alphaCore
 				}
 				for _, l := range al {
 					rec(append(seq, l), maxDepth, emitFrom, smallFrom)
